@@ -36,6 +36,8 @@ pub enum POp {
     Commit,
     Clear,
     Reorg(u8),
+    /// park nonces account+1 ..= account+n of a signer (ascending or descending), then optionally the missing one
+    ParkRun(u8, u8, bool, bool),
 }
 
 #[derive(Clone, Debug, Serialize, Deserialize)]
@@ -60,6 +62,7 @@ fn pop_strategy() -> impl Strategy<Value = POp> {
         1 => Just(POp::Commit),
         1 => Just(POp::Clear),
         2 => (0u8..12).prop_map(POp::Reorg),
+        2 => (0u8..3, 2u8..12, any::<bool>(), prop::bool::weighted(0.7)).prop_map(|(s, n, asc, trig)| POp::ParkRun(s, n, asc, trig)),
     ]
 }
 
@@ -322,6 +325,19 @@ impl Sim {
                 self.open = Some(count + got.len() as u64);
                 self.compare(&format!("after op {} {:?}", i, op))?;
             }
+            POp::ParkRun(s, n, asc, trigger) => {
+                let mut ks: Vec<i8> = (1..=*n as i8).collect();
+                if !*asc {
+                    ks.reverse();
+                }
+                // nonces are relative to the account nonce, which does not move while they are only parked
+                for k in ks {
+                    self.apply(i, &POp::Tx(*s, NSel::Rel(k), 0, false))?;
+                }
+                if *trigger {
+                    self.apply(i, &POp::Tx(*s, NSel::Rel(0), 0, false))?;
+                }
+            }
             POp::Garbage(bytes) => {
                 let before = self.inst.call("txpool_content", json!([]));
                 let mut p = self.block_fields();
@@ -502,6 +518,30 @@ fn decode_small(mut idx: u64, len: usize, variants: u64) -> Vec<POp> {
     ops
 }
 
+/// full-window family: park nonces 1..=n (ascending / descending), wait g blocks, then submit nonce 0
+fn window_family() -> Vec<Vec<POp>> {
+    let mut v = vec![];
+    for n in 1..=11u8 {
+        for asc in [true, false] {
+            for g in [0u8, 1, 9, 10] {
+                let mut ops = vec![POp::ParkRun(0, n, asc, false)];
+                match g {
+                    0 => {}
+                    1 => ops.push(POp::Finalise),
+                    g => {
+                        ops.push(POp::Finalise);
+                        ops.push(POp::Mine(g - 1));
+                    }
+                }
+                ops.push(POp::Tx(0, NSel::Abs(0), 0, false));
+                ops.push(POp::Finalise);
+                v.push(ops);
+            }
+        }
+    }
+    v
+}
+
 fn small_space(len: usize, variants: u64) -> u64 {
     (4 * variants).pow(len as u32) * 5u64.pow(len as u32 - 1)
 }
@@ -521,7 +561,13 @@ impl Property for C08 {
             total += small_space(*l, *v);
         }
         let offs = offsets.clone();
+        let fam = window_family();
+        let fam_base = total;
+        total += fam.len() as u64;
         let decode = move |i: u64| -> Vec<POp> {
+            if i >= fam_base {
+                return fam[(i - fam_base) as usize].clone();
+            }
             let (base, l, v) = offs.iter().rev().find(|(b, _, _)| *b <= i).cloned().unwrap();
             decode_small(i - base, l, v)
         };
@@ -529,7 +575,7 @@ impl Property for C08 {
             ctx,
             ev,
             "small-scope",
-            &format!("exhaustive: every arrival sequence of signed transactions of one signer with nonces in 0..4 (second variant = another transaction for the same nonce) crossed with every block-gap pattern from {{0,1,9,10,11}} between arrivals, for (length, variants) in {:?}: {} sequences; compared with the reference pool model after every call. Non-trivial = a drain of >= 2 parked nonces or an entry aged 9/10/11 blocks when its predecessor arrives", parts, total),
+            &format!("exhaustive: every arrival sequence of signed transactions of one signer with nonces in 0..4 (second variant = another transaction for the same nonce) crossed with every block-gap pattern from {{0,1,9,10,11}} between arrivals, for (length, variants) in {:?}, plus the full-window family (park nonces 1..=n for n = 1..11 ascending/descending, wait 0/1/9/10 blocks, submit nonce 0): {} sequences; compared with the reference pool model after every call. Non-trivial = a drain of >= 2 parked nonces or an entry aged 9/10/11 blocks when its predecessor arrives", parts, total),
             total,
             |i| {
                 let ops = decode(i);
